@@ -88,7 +88,7 @@ def main():
         todo = checks or ([pid] if pid in accepted else []) + [c for c in accepted if c != pid]
         det = {}
         for c in todo:
-            r = sh([sys.executable, os.path.join(VERIF, "check.py"), c], env=dict(os.environ, VERIF_REPO=wt))
+            r = sh([sys.executable, os.path.join(VERIF, "check.py"), c, "--tier", "thorough"], env=dict(os.environ, VERIF_REPO=wt))
             fired = r.returncode == 1 and ("VIOLATION property=" + c) in r.stdout
             fails = [l for l in r.stdout.splitlines() if l.startswith("[FAIL]")]
             det[c] = {"fired": fired, "exit": r.returncode, "fails": fails[:5]}
